@@ -148,17 +148,26 @@ theorem C14_stale_probe_ignored (w : Worker) (p : Probe) (now : Nat)
   exact ⟨a, b, c⟩
 
 /-- In particular a probe that began before a start completed never removes that container from
-`running`: the completion closure stamps `updated`, which makes the probe stale. -/
+`running`: the completion closure (when its runner is still in `starting`) stamps `updated`,
+which makes the probe stale. -/
 theorem C14_start_completion_not_undone (w : Worker) (u : Uuid) (p : Probe) (t1 t2 : Nat)
-    (hstate : w.state ≠ .idle) (hbegin : p.stamp = w.updated) (h1 : w.updated < t1) (h2 : t1 < t2) :
+    (hstate : w.state ≠ .idle) (hu : u ∈ w.starting) (hbegin : p.stamp = w.updated)
+    (h1 : w.updated < t1) (h2 : t1 < t2) :
     u ∈ ((w.startDone u t1).probeApply p t2).1.running := by
   have := C14_stale_probe_ignored (w.startDone u t1) p t2
-    (fun h => absurd h hstate) (by omega) (by simp; omega)
-  rw [this.1]
-  simp
+    (fun h => absurd (by simpa using h) hstate) (by omega)
+    (by rw [Worker.startDone_updated]; simp [hu]; omega)
+  rw [this.1, Worker.startDone_running]
+  exact Or.inr ⟨rfl, hu⟩
 
 example : (7 : Uuid) ∈ ((Worker.startDone ⟨1, 1, .running, .run, [7], [], 5, 5, 5⟩ 7 10).probeApply
     ⟨5, true, true, false, [], false, false⟩ 11).1.running := by decide
+
+/-- Fix 18910db: a completion closure whose runner is no longer in `starting` (a probe adopted
+it, and possibly closed it again) changes nothing — in particular it cannot put a container back
+into `running` of a worker that has gone Idle. -/
+theorem C14_late_completion_is_noop (w : Worker) (u : Uuid) (now : Nat) (h : u ∉ w.starting) :
+    w.startDone u now = w := Worker.startDone_of_not_mem now h
 
 /-- A fresh, successful probe makes `running` exactly the set the probe reported, and a
 container leaves `starting` only by being reported. -/
